@@ -12,6 +12,8 @@ type unmarshalMachineWildcard struct {
 	target_rt reflect.Type
 	delegate  UnmarshalMachine // actual machine, once we've demuxed with the first token.
 	holder_rv reflect.Value    // if set, handle to slot where slice is stored; content must be placed into target at end.
+
+	delegateRow bool // the delegate lives on a slab row requisitioned for it; released when it is done.
 }
 
 func (mach *unmarshalMachineWildcard) Reset(_ *unmarshalSlab, rv reflect.Value, rt reflect.Type) error {
@@ -19,6 +21,7 @@ func (mach *unmarshalMachineWildcard) Reset(_ *unmarshalSlab, rv reflect.Value, 
 	mach.target_rt = rt
 	mach.delegate = nil
 	mach.holder_rv = reflect.Value{}
+	mach.delegateRow = false
 	return nil
 }
 
@@ -32,6 +35,9 @@ func (mach *unmarshalMachineWildcard) Step(driver *Unmarshaller, slab *unmarshal
 	done, err = mach.delegate.Step(driver, slab, tok)
 	if !done {
 		return
+	}
+	if mach.delegateRow {
+		slab.release()
 	}
 	if mach.holder_rv.IsValid() {
 		mach.target_rv.Set(mach.holder_rv)
@@ -49,7 +55,11 @@ func (mach *unmarshalMachineWildcard) prepareDemux(driver *Unmarshaller, slab *u
 		}
 		value_rt := atlasEntry.Type
 		mach.holder_rv = reflect.New(value_rt).Elem()
-		mach.delegate = _yieldUnmarshalMachinePtr(slab.tip(), slab.atlas, value_rt)
+		// The machine for the registered type gets a slab row of its own: it may
+		// itself need a wildcard machine (a transform whose serial form is
+		// interface{}), and this row's one is busy being us.
+		mach.delegate = slab.requisitionMachine(value_rt)
+		mach.delegateRow = true
 		if err := mach.delegate.Reset(slab, mach.holder_rv, value_rt); err != nil {
 			return true, err
 		}
